@@ -263,7 +263,7 @@ func Main(id string, scenarios []Scenario, extra Extra, seqParts ...SeqPart) {
 		})
 	}
 	if len(os.Args) > 2 && os.Args[1] == "--replay" {
-		replay(id, byName, os.Args[2])
+		replay(id, byName, seqByName, os.Args[2])
 		return
 	}
 	run := report.New(id, "model_checking")
@@ -322,7 +322,8 @@ func Main(id string, scenarios []Scenario, extra Extra, seqParts ...SeqPart) {
 			xTraces += r.Traces
 			for _, v := range r.Viol {
 				for k := int64(0); k < v.Count; k++ {
-					run.Violate(id+"|"+v.Sig, v.What, v.Replay)
+					// replay = re-run of the (deterministic) shard that reported it; detail = what the part recorded
+					run.Violate(id+"|"+v.Sig, v.What, map[string]interface{}{"seq": j.Seq, "shard": j.Shard, "nshards": j.NShards, "thorough": j.Thorough, "detail": v.Replay})
 					if k > 3 {
 						break
 					}
@@ -603,11 +604,28 @@ func keys(m map[string]bool) []string {
 	return out
 }
 
-func replay(id string, byName map[string]*Scenario, path string) {
-	_, raw := report.LoadReplay(path)
+func replay(id string, byName map[string]*Scenario, seqByName map[string]*SeqPart, path string) {
+	sig, raw := report.LoadReplay(path)
 	var r struct {
 		Scenario string `json:"scenario"`
 		Choices  []int  `json:"choices"`
+		Seq      string `json:"seq"`
+		Shard    int    `json:"shard"`
+		NShards  int    `json:"nshards"`
+		Thorough bool   `json:"thorough"`
+	}
+	if err := json.Unmarshal(raw, &r); err == nil && r.Seq != "" && seqByName[r.Seq] != nil {
+		// a violation of an explicit-state part: the shard that reported it is re-run (a total, deterministic enumeration)
+		res := seqByName[r.Seq].Run(r.Shard, r.NShards, r.Thorough)
+		for _, v := range res.Viol {
+			if id+"|"+v.Sig == sig {
+				fmt.Printf("REPRODUCED %s|%s: %s\n", id, v.Sig, v.What)
+				fmt.Printf("VIOLATION property=%s replay=%s\n", id, path)
+				os.Exit(1)
+			}
+		}
+		fmt.Println("not reproduced")
+		os.Exit(0)
 	}
 	if err := json.Unmarshal(raw, &r); err != nil || byName[r.Scenario] == nil {
 		fmt.Println("replay: unknown scenario", r.Scenario, err)
